@@ -271,6 +271,10 @@ fn record(agg: &mut Agg, prop: &str, profile: &str, job: usize, seed: u64, res: 
                     agg.samples.push(json!({"seed": seed, "case": trim_case_for_sample(c), "stats": r["stats"]}));
                 }
             }
+            if outcome == "panic" && v.get("case").map(|c| c["sim"] != json!("a")).unwrap_or(false) {
+                // every repo call of SIM-B / SIM-C is guarded: an escaping panic is a harness bug
+                add_found(agg, "HARNESS.panic".into(), r["panic"].as_str().unwrap_or("").to_string(), v.get("case").cloned().unwrap_or(Value::Null));
+            }
             if outcome == "invalid_case" {
                 // generator produced something REF rejects: harness error, never a violation
                 add_found(agg, "HARNESS.invalid_case".into(), r["panic"].as_str().unwrap_or("").to_string(), v.get("case").cloned().unwrap_or(Value::Null));
@@ -406,6 +410,10 @@ pub fn run_check(prop: &str, tier: &str) -> i32 {
         eprintln!("harness error: generator produced an instance REF rejects (seed {}): {}", f.seed, f.msg);
         let _ = std::fs::create_dir_all(verif_dir().join("replays"));
         let _ = std::fs::write(verif_dir().join("replays").join(format!("HARNESS_invalid_case_{}.json", f.seed)), serde_json::to_string_pretty(&f.case).unwrap());
+        return 2;
+    }
+    if let Some(f) = agg.found.get("HARNESS.panic") {
+        eprintln!("harness error: simulator code panicked outside guarded repo calls (seed {}): {}", f.seed, f.msg);
         return 2;
     }
     let max_reports = if tier == "thorough" { 12 } else { 6 };
